@@ -677,6 +677,13 @@ def entry_cases(tier):
             for mod in (("deeper-key", "mutating-model") if text == "ld" else ("item-key", "mutating-model")):
                 cases.append({"part": "entry", "ep": "textalias", "det": "ccd", "key": "pipeline.photon_collection.p1.arguments." + text,
                               "kcls": "valid", "text": text, "where": where, "mod": mod})
+    # overrides combined with the calibration mode (valid keys must reach every evaluated pipeline, invalid ones must
+    # be refused before the first evaluation)
+    for key, kcls in (("detector.environment.temperature", "valid"), ("pipeline.charge_collection.cm.arguments.i", "valid"),
+                      ("calibration.pygmo_seed", "valid"),
+                      ("detector.environment.temperatur", "misspelt-last"), ("pipeline.charge_collection.cm.arguments.ii", "undeclared"),
+                      ("pipeline.charge_collection.cx.arguments.i", "misspelt-model"), ("calibration.pygmo_sed", "misspelt-last")):
+        cases.append({"part": "entry", "ep": "override-cal", "det": "ccd", "key": key, "kcls": kcls})
     # override keys that address the running mode ('exposure.readout.non_destructive', ...): valid ones and every
     # mechanically derived misspelling / truncation of one component
     for rm in ("exposure", "observation"):
@@ -702,6 +709,10 @@ def entry_cases(tier):
         if c["ep"] == "modekey":
             c["target"] = "running-mode"
             continue
+        if c["ep"] == "override-cal":
+            c["target"] = ("running-mode" if c["key"].startswith("calibration") else
+                           "detector-field" if c["key"].startswith("detector") else "model-argument")
+            continue
         if c["ep"] in ("dupname", "nested", "rerun", "textalias"):
             c["target"] = "model-argument"
             continue
@@ -720,6 +731,66 @@ def _mutate_args(detector, ld=None, v=None, i=0):
     if v:
         v[0] = 1000
         v.append(5)
+
+
+def _cal_model(detector, i=1, a=1.0):
+    """probe for the calibration entry: records what it receives, writes a pixel frame"""
+    probes.TRACE.append({"name": detector.current_running_model_name, "i": i,
+                         "temperature": float(detector.environment.temperature)})
+    shape = detector.geometry.shape
+    detector.pixel.array = np.full(shape, float(a) + float(i))
+
+
+def _run_override_cal(case, bad):
+    import pyxel
+    from pyxel.observation import ParameterValues
+
+    from vp import calib
+
+    key, valid = case["key"], case["kcls"] == "valid"
+    tmp = tempfile.mkdtemp(prefix="vp_c08c_")
+    try:
+        tgt = os.path.join(tmp, "t.npy")
+        np.save(tgt, np.ones((2, 3)))
+        det = mk.detector("ccd", 2, 3, temperature=100.0)
+        pipe = mk.pipeline({"charge_collection": [("props.c08_dotted_keys._cal_model", "cm", {"i": 3, "a": 1.0}, True)]})
+        cal = calib.calibration([tgt], [ParameterValues(key="pipeline.charge_collection.cm.arguments.a", values="_",
+                                                        boundaries=(0.0, 5.0))],
+                                generations=1, population_size=8, pygmo_seed=5, num_islands=1, num_evolutions=1)
+        val = {"detector.environment.temperature": 222.0, "pipeline.charge_collection.cm.arguments.i": 9,
+               "calibration.pygmo_seed": 17}.get(key, 7)
+        probes.reset()
+        exc = None
+        try:
+            pyxel.run_mode(cal, det, pipe, override_dct={key: val}, with_inherited_coords=True)
+        except Exception as e:  # noqa: BLE001
+            exc = e
+        trace = list(probes.TRACE)
+        if not valid:
+            if exc is None:
+                bad("invalid-accepted", f"calibration with override {key}={val!r} raised nothing; {len(trace)} model call(s) ran")
+            elif trace:
+                bad("rejected-after-running", f"override raised {type(exc).__name__} only after {len(trace)} model call(s)")
+            return ["invalid", type(exc).__name__ if exc else None, len(trace)]
+        if exc is not None:
+            bad("valid-refused", f"calibration with override {key}={val!r} raised {type(exc).__name__}: {str(exc)[:200]}")
+            return ["valid-refused", type(exc).__name__]
+        if not trace:
+            bad("wrong-models-ran", "the calibration evaluated no pipeline")
+        if key.startswith("detector"):
+            seen = sorted({t["temperature"] for t in trace})
+            if seen != [val]:
+                bad("value-not-applied", f"after override {key}={val!r} the evaluated pipelines saw temperature {seen}")
+        elif key.startswith("pipeline"):
+            seen = sorted({t["i"] for t in trace})
+            if seen != [val]:
+                bad("value-not-applied", f"after override {key}={val!r} the evaluated pipelines received i={seen}")
+        else:
+            if cal.pygmo_seed != val:
+                bad("value-not-applied", f"after override {key}={val!r} the calibration holds pygmo_seed={cal.pygmo_seed!r}")
+        return ["applied", len(trace)]
+    finally:
+        shutil.rmtree(tmp, ignore_errors=True)
 
 
 def _run_textalias(case, bad):
@@ -891,6 +962,8 @@ def run_entry(case):
             outcome = _run_modekey(case, det, pipe, bad)
         elif ep == "textalias":
             outcome = _run_textalias(case, bad)
+        elif ep == "override-cal":
+            outcome = _run_override_cal(case, bad)
         elif ep == "dupname":
             outcome = _run_sweep(case, det, pipe, before, bad)
         elif ep == "override":
